@@ -20,6 +20,10 @@ def gen_gate(tier, rng):
     nums = [0, 1, 2] + HV.nums(1)
     singles = [('set', [(f, p)]) for f in RG.FORMS for p in RG.all_partials(nums)]
     alts = list(singles)
+    # the same-tuple test of the gate at every power of two (a tagged comparator on x.x.x / 0.0.x / x.0.0)
+    for x in power_values():
+        for xs in ([x, x, x], [0, 0, x], [x, 0, 0]):
+            alts += [('set', [(f, (xs, ('a',), ()))]) for f in ('>=', '<', '^', 'bare')]
     n = 1500 if tier == 'quick' else 30000
     for _ in range(n):
         alts.append(RG.random_alt(rng, nums + [3], garbage=0.05))
